@@ -27,7 +27,7 @@ Fixpoint argmax_first (best : Q) (bi : nat) (i : nat) (l : list Q) : nat :=
   | [] => bi
   | x :: r => if Qlt_le_dec best x then argmax_first x i (S i) r else argmax_first best bi (S i) r
   end.
-Definition mct_scores (data : list Z) (bins : Z) : list Q :=
+Definition mct_rows (data : list Z) (bins : Z) : list (Q * Q * Q) :=
   match data with
   | [] => []
   | x0 :: _ =>
@@ -45,20 +45,27 @@ Definition mct_scores (data : list Z) (bins : Z) : list Q :=
       let ni := suffix_sums (map inject_Z hist) in
       map (fun p : Q * Q =>
              let den := Qmult sndiff2 (Qmult (Qminus (inject_Z nm) (snd p)) (snd p)) in
-             if Qeq_bool den (Qmake 0 1) then Qmake 0 1
-             else Qred (Qdiv (Qmult (Qmult (fst p) (fst p)) (inject_Z nm)) den))
+             (fst p, snd p,
+              if Qeq_bool den (Qmake 0 1) then Qmake 0 1
+              else Qred (Qdiv (Qmult (Qmult (fst p) (fst p)) (inject_Z nm)) den)))
           (combine num ni)
   end.
-(* arg: (data bins) -> (min max my_bin best second?) *)
+Definition mct_scores (data : list Z) (bins : Z) : list Q := map snd (mct_rows data bins).
+(* arg: (data bins) -> (min max my_bin best second?); [second] = the best score among positions whose
+   (numerator, n_i) differ from the arg-max's: positions with the same pair (runs of empty bins) hold the
+   very same floating-point value in the code, so that tie is broken identically (first index) *)
 Definition entry_mct (x : sx) : sx :=
   let data := as_Zs (arg 0 x) in
   let bins := as_Z (arg 1 x) in
-  let sc := mct_scores data bins in
+  let rows := mct_rows data bins in
+  let sc := map snd rows in
   match data, sc with
   | x0 :: _, s0 :: r =>
       let k := argmax_first s0 0 1 r in
-      let others := remove_nth k sc in
-      L [I (zmin_l x0 data); I (zmax_l x0 data); I (Z.of_nat k - 1); of_Q (nth k sc (Qmake 0 1));
+      let kr := nth k rows (Qmake 0 1, Qmake 0 1, Qmake 0 1) in
+      let others := map snd (filter (fun t : Q * Q * Q =>
+                      negb (Qeq_bool (fst (fst t)) (fst (fst kr)) && Qeq_bool (snd (fst t)) (snd (fst kr)))) rows) in
+      L [I (zmin_l x0 data); I (zmax_l x0 data); I (Z.of_nat k - 1); of_Q (snd kr);
          match others with [] => L [] | o0 :: r' => L [of_Q (nth (argmax_first o0 0 1 r') others (Qmake 0 1))] end]
   | _, _ => L []
   end.
